@@ -349,6 +349,32 @@ func runFanout(rc *RunCtx, o fanOpts) {
 			}
 		}
 	}
+	// scale: now and then one event type has far more pipelines than any fixed-size buffer a Send might
+	// keep per traversal (uncancelled runs only: the prefix search of cancelled Sends is exponential)
+	if !o.cancel && !o.small && tp.Choose(12, "wide") == 0 {
+		w := 13 + tp.Choose(28, "nwide")
+		for i := 0; i < w; i++ {
+			var ids []string
+			if tp.Choose(2, "wfilt") == 0 {
+				ids = append(ids, filters[tp.Choose(len(filters), "filt")].id)
+			}
+			ids = append(ids, formatters[tp.Choose(len(formatters), "fmt")].id, sinks[tp.Choose(len(sinks), "sink")].id)
+			nids := make([]el.NodeID, len(ids))
+			for j, x := range ids {
+				nids[j] = el.NodeID(x)
+			}
+			pid := fmt.Sprintf("w%d", i)
+			err := broker.RegisterPipeline(el.Pipeline{PipelineID: el.PipelineID(pid), EventType: el.EventType(types[0]), NodeIDs: nids})
+			ok := model.RegisterPipeline(types[0], pid, ids, "", false)
+			graphKnown[types[0]] = true
+			if (err == nil) != ok {
+				rc.Failf(rc.Prop+".setup", "register-pipeline", "RegisterPipeline(%s,%s,%v): real err=%v model ok=%v", types[0], pid, ids, err, ok)
+				return
+			}
+		}
+		desc.History = append(desc.History, fmt.Sprintf("%d more pipelines w0.. registered for %s", w, types[0]))
+		simrt.Probe("history.wide-event-type")
+	}
 	for _, t := range types {
 		for _, p := range model.pipesOfType(t) {
 			desc.Pipelines[t+"/"+p.id] = p.nodeIDs
@@ -517,7 +543,14 @@ func runFanout(rc *RunCtx, o fanOpts) {
 	if o.small && tp.Choose(3, "reentrant") == 0 {
 		broker.RegisterNode("tzf", &passNode{el.NodeTypeFormatter})
 		broker.RegisterNode("tzs", &passNode{el.NodeTypeSink})
-		broker.RegisterPipeline(el.Pipeline{PipelineID: "tz", EventType: "tz", NodeIDs: []el.NodeID{"tzf", "tzs"}})
+		if tp.Choose(2, "tz-root-resends") == 0 {
+			// the first node of the nested type's pipeline itself sends an event of that same type
+			// (a bounded chain: the payload counts down), as a gate that emits a composite does
+			broker.RegisterNode("tzr", &resendNode{b: broker})
+			broker.RegisterPipeline(el.Pipeline{PipelineID: "tz", EventType: "tz", NodeIDs: []el.NodeID{"tzr", "tzf", "tzs"}})
+		} else {
+			broker.RegisterPipeline(el.Pipeline{PipelineID: "tz", EventType: "tz", NodeIDs: []el.NodeID{"tzf", "tzs"}})
+		}
 		reent := map[string]bool{}
 		for _, p := range all {
 			if tp.Choose(3, "reent-node") == 0 {
@@ -1000,6 +1033,21 @@ func (n *barrierNode) Process(ctx context.Context, e *el.Event) (*el.Event, erro
 	}
 	if n.kind == el.NodeTypeSink {
 		return nil, nil
+	}
+	return e, nil
+}
+
+// resendNode is a filter that, while it processes an event whose payload counts down, sends one
+// more event of the SAME type through the Broker before it lets the event pass.
+type resendNode struct{ b *el.Broker }
+
+func (n *resendNode) Type() el.NodeType { return el.NodeTypeFilter }
+func (n *resendNode) Reopen() error     { return nil }
+func (n *resendNode) Process(ctx context.Context, e *el.Event) (*el.Event, error) {
+	simrt.Yield("resend")
+	if p, ok := e.Payload.(*plainPayload); ok && p.N > 0 {
+		simrt.Probe("node.nested-send-same-type")
+		n.b.Send(context.Background(), e.Type, &plainPayload{N: p.N - 1})
 	}
 	return e, nil
 }
